@@ -21,6 +21,7 @@ import EPV.Lemmas.SedovInit
 import EPV.Lemmas.SedovSingular
 import EPV.Spec.Sedov
 import EPV.Tactics
+import EPV.Lemmas.Bridge.SemiTac
 import Mathlib.Analysis.SpecialFunctions.Integrals.Basic
 
 set_option linter.all false
@@ -36,18 +37,18 @@ noncomputable section
 theorem init_alpha_code (p : SedovInit.P) (A : Accepted p) (hns : ¬ SingularType p) :
     SedovInit.eval1 p = p.eval1_quad ∧ SedovInit.eval2 p = p.eval2_quad ∧
     SedovInit.alpha p = alphaCode p.geometry p.gamma p.eval1_quad p.eval2_quad := by
-  have h8 : ¬ SedovInit.c8 p := hns
+  have h8 : ¬ SedovInit.c8 p := (init_c8 p).not.mpr hns
   init_cases A p on SedovInit.eval1, SedovInit.eval2, SedovInit.alpha, h8 with
     first
-    | (simp only [epv_leaf, true_and]
+    | (simp only [epv_leaf]
        unfold alphaCode
        rw [hg]
-       norm_num)
+       refine ⟨?_, ?_, ?_⟩ <;> (try norm_num) <;> epv_semi_eq)
     | -- the three `raise AttributeError` leaves (solution_type left unset: neither |v2-vstar| ≤ s,
       -- nor v2 < vstar - s, nor v2 > vstar + s) are unreachable for real numbers
       (exfalso
-       simp only [epv_cond, SingularType, not_le, not_lt] at *
-       rcases lt_abs.mp h8 with hh | hh <;> linarith)
+       simp only [epv_cond] at *
+       epv_semi_abs_lin)
 
 /-- `if self.geometry != 1: self.alpha *= math.pi` -/
 def piFactor (kr : ℝ) : ℝ := if kr = 1 then 1 else Real.pi
@@ -58,12 +59,12 @@ theorem init_singular_closed (p : SedovInit.P) (A : Accepted p) (hs : SingularTy
     SedovInit.eval1 p = 2 / (p.gamma - 1) * ((p.gamma + 1) / (p.geometry * ((p.gamma - 1) * p.geometry + 2) ^ 2)) ∧
     SedovInit.alpha p = (p.gamma + 1) / (p.gamma - 1) * 2 ^ p.geometry
         / (p.geometry * ((p.gamma - 1) * p.geometry + 2) ^ 2) * piFactor p.geometry := by
-  have h8 : SedovInit.c8 p := hs
+  have h8 : SedovInit.c8 p := (init_c8 p).mpr hs
   init_cases A p on SedovInit.eval1, SedovInit.eval2, SedovInit.alpha, h8 with
-    (simp only [epv_leaf, true_and]
+    (simp only [epv_leaf]
      unfold piFactor
      rw [hg]
-     norm_num)
+     refine ⟨?_, ?_, ?_⟩ <;> (try norm_num) <;> epv_semi_eq)
 
 /-- non-vacuity of `singular_closed_forms`: γ = 7/5, k = 3, ω = 7/3 -/
 example : (1:ℝ) < 7/5 ∧ ((3:ℕ):ℝ) + 2 - 7/3 ≠ 0 ∧
